@@ -16,8 +16,13 @@ impl H256 { pub fn pack(&self) -> Byte32 { Byte32(self.0) } }
 impl std::fmt::LowerHex for H256 { fn fmt(&self, _f: &mut std::fmt::Formatter) -> std::fmt::Result { Ok(()) } }
 
 /// packed::Bytes (block extension): 1-byte identifier of the content plus a flag "begins with chain-root hash x".
-#[derive(Clone, Copy, PartialEq, Eq, Default, Debug)] pub struct PBytes(pub u8);
-impl PBytes { pub fn as_slice(&self) -> &[u8] { std::slice::from_ref(&self.0) } }
+#[derive(Clone, Copy, PartialEq, Eq, Default, Debug)] pub struct PBytes { pub len: u8, pub b: [u8; 2] }
+impl PBytes {
+    /// content of 0, 1 or 2 bytes (a hash is ONE byte in the model, so "hash ++ more" is 2 bytes)
+    pub fn of(len: u8, b0: u8, b1: u8) -> Self { let l = if len > 2 { 2 } else { len }; PBytes { len: l, b: [if l >= 1 { b0 } else { 0 }, if l >= 2 { b1 } else { 0 }] } }
+    pub fn as_slice(&self) -> &[u8] { &self.b[..self.len as usize] }
+    pub fn key(&self) -> u64 { ((self.len as u64) << 16) | ((self.b[0] as u64) << 8) | self.b[1] as u64 }
+}
 
 /// packed::Header / packed::RawHeader stand-in: same fields as the view.
 #[derive(Clone, Copy, PartialEq, Eq, Default, Debug)]
